@@ -851,6 +851,62 @@ def run_objects_fixed(unit, res, c, progress):
     cf.set_value(cf)
     diag(cf, "Future", "value-is-self", viol, c, stats)
 
+    # ---- values that reach the future holding them AGAIN, several times, through containers of every sort
+    import collections
+
+    Pair = collections.namedtuple("Pair", "a b")
+
+    class Rec(object):
+        def __init__(self, *xs):
+            self.xs = list(xs)
+
+        def __repr__(self):
+            return "Rec(%s)" % ", ".join(repr(x) for x in self.xs)
+
+        __str__ = __repr__
+
+    class RecDict(dict):
+        def __repr__(self):
+            return "RecDict(%s)" % ", ".join("%r=%r" % kv for kv in self.items())
+
+    shapes = {
+        "namedtuple-twice": lambda f: Pair(f, f),
+        "record-twice": lambda f: Rec(f, f),
+        "record-thrice-nested": lambda f: Rec(f, Rec(f, Pair(f, 1))),
+        "list-twice": lambda f: [f, f],
+        "dict-twice": lambda f: {"a": f, "b": f},
+        "dict-subclass-twice": lambda f: RecDict(a=f, b=f),
+        "tuple-in-record": lambda f: Rec((f, f), [f]),
+    }
+    for nm, mk in sorted(shapes.items()):
+        sf = Future(lambda: None)
+        sf.set_value(mk(sf))
+        diag(sf, "Future", "value-reaches-self/" + nm, viol, c, stats)
+        try:
+            if len(repr(sf)) > 5000:
+                viol.append(("repr-of-self-reaching-value-is-not-bounded", {"object": "Future", "shape": nm, "length": len(repr(sf))}))
+        except BaseException:
+            pass  # reported by diag()
+        box = []
+
+        @A()
+        def self_holder(box=box, mk=mk):
+            v = yield harness.HItem(rt, 0, "sh", ("sh", 0))
+            return mk(box[0])
+
+        tk = self_holder.asynq()
+        box.append(tk)
+        diag(tk, "AsyncTask", "value-reaches-self-not-started/" + nm, viol, c, stats)
+        tk.value()
+        diag(tk, "AsyncTask", "value-reaches-self/" + nm, viol, c, stats)
+        # two futures holding each other through the shape
+        fa = Future(lambda: None)
+        fb = Future(lambda: None)
+        fa.set_value(mk(fb))
+        fb.set_value(mk(fa))
+        diag(fa, "Future", "value-reaches-self-through-another-future/" + nm, viol, c, stats)
+    c["self_reaching_value_shapes_printed"] = len(shapes)
+
     @A()
     def t1():
         v = yield harness.HItem(rt, 0, "t", ("t", 0))
